@@ -2,7 +2,11 @@
   C02 driver: the cache model at Float32, one request per line.
     new | store kdw kdh avw avh mode <11 output tokens> | get kdw kdh avw avh mode | clear | isempty
   Property monitor (`mon` prefix lines are produced by ./check from the implementation's answers):
-    the monitor keeps the history of stores since the last clear and checks every implementation hit against it.
+    the monitor keeps the history of stores since the last clear and checks every implementation hit against it
+    (`get_sound`), and keeps the stores that are still *live* by the documented slot table (`Model/Cache.computeCacheSlot`,
+    the doc comment of `Cache::compute_cache_slot`: any later final store displaces a final store; a later measure store displaces a
+    measure store iff it maps to the same documented slot) and checks every implementation miss against them
+    (`hit_until_displaced_final/_measure`: a lookup under the bit-identical, self-compatible key of a live store must hit).
 -/
 import TaffyVerif.Drv.Common
 import TaffyVerif.Model.Cache
@@ -16,8 +20,10 @@ structure St where
   cache : Cache F
   /-- monitor: stores since the last clear (mode, kd, av, out) -/
   hist : List (RunMode × Size (Option F) × Size (AvailableSpace F) × LayoutOutput F)
+  /-- monitor: stores not displaced since (by the documented slot table) -/
+  live : List (RunMode × Size (Option F) × Size (AvailableSpace F) × LayoutOutput F) := []
 
-def init : St := { cache := Cache.new, hist := [] }
+def init : St := { cache := Cache.new, hist := [], live := [] }
 
 def parseKey (a b c d : String) : Option (Size (Option F) × Size (AvailableSpace F)) := do
   let kw ← parseOptF32 a; let kh ← parseOptF32 b
@@ -37,6 +43,25 @@ def justified (st : St) (kd : Size (Option F)) (av : Size (AvailableSpace F)) (m
        | .computeSize => outBitsEq ans (LayoutOutput.fromOuterSize out.size)
        | .performHiddenLayout => false)
 
+def keyBitsEq (kd : Size (Option F)) (av : Size (AvailableSpace F)) (kd2 : Size (Option F)) (av2 : Size (AvailableSpace F)) : Bool :=
+  showOptF32 kd.width == showOptF32 kd2.width && showOptF32 kd.height == showOptF32 kd2.height &&
+  showAv av.width == showAv av2.width && showAv av.height == showAv av2.height
+
+/-- `Live` of Model/Cache.lean, as a list: drop what the new store displaces, add the new store -/
+def liveAfterStore (live : List (RunMode × Size (Option F) × Size (AvailableSpace F) × LayoutOutput F))
+    (mode : RunMode) (kd : Size (Option F)) (av : Size (AvailableSpace F)) (out : LayoutOutput F) :=
+  if mode == .performHiddenLayout then live
+  else (mode, kd, av, out) :: live.filter fun (m, ekd, eav, _) =>
+    !(match m, mode with
+      | .performLayout, .performLayout => true
+      | .computeSize, .computeSize => computeCacheSlot kd av == computeCacheSlot ekd eav
+      | _, _ => false)
+
+/-- hypothesis of `hit_until_displaced_*`, evaluated on an implementation miss: a live store under this very key, self-compatible -/
+def missWhileLive (st : St) (kd : Size (Option F)) (av : Size (AvailableSpace F)) (mode : RunMode) : Bool :=
+  st.live.any fun (m, ekd, eav, out) =>
+    m == mode && keyBitsEq kd av ekd eav && compatible kd av kd av out.size
+
 def step (st : St) (ws : List String) : St × String :=
   match ws with
   | ["new"] => (init, "ok")
@@ -44,7 +69,7 @@ def step (st : St) (ws : List String) : St × String :=
     match parseKey a b c d, parseMode m, parseOutput rest with
     | some (kd, av), some mode, some out =>
       let hist := if mode == .performHiddenLayout then st.hist else (mode, kd, av, out) :: st.hist
-      ({ cache := st.cache.store kd av mode out, hist }, "ok")
+      ({ st with cache := st.cache.store kd av mode out, hist }, "ok")
     | _, _, _ => (st, "bad-op")
   | ["get", a, b, c, d, m] =>
     match parseKey a b c d, parseMode m with
@@ -55,14 +80,14 @@ def step (st : St) (ws : List String) : St × String :=
     | _, _ => (st, "bad-op")
   | ["clear"] =>
     let (c, s) := st.cache.clear
-    ({ cache := c, hist := [] }, match s with | .cleared => "cleared" | .alreadyEmpty => "already")
+    ({ cache := c, hist := [], live := [] }, match s with | .cleared => "cleared" | .alreadyEmpty => "already")
   | ["isempty"] => (st, showBool st.cache.isEmpty)
   -- monitor lines: `mon get … => some …|none`, evaluated against the history only (not the model cache)
   | "mon" :: "get" :: a :: b :: c :: d :: m :: "=>" :: ans =>
     match parseKey a b c d, parseMode m with
     | some (kd, av), some mode =>
       match ans with
-      | ["none"] => (st, "ok")
+      | ["none"] => (st, if missWhileLive st kd av mode then "miss-while-live" else "ok")
       | "some" :: rest =>
         match parseOutput rest with
         | some o => (st, if justified st kd av mode o then "ok" else "unjustified-hit")
@@ -77,10 +102,10 @@ def step (st : St) (ws : List String) : St × String :=
       match parseKey a b c d, parseMode m, parseOutput more with
       | some (kd, av), some mode, some out =>
         let hist := if mode == .performHiddenLayout then st.hist else (mode, kd, av, out) :: st.hist
-        ({ st with hist }, "ok")
+        ({ st with hist, live := liveAfterStore st.live mode kd av out }, "ok")
       | _, _, _ => (st, "bad-op")
     | _ => (st, "bad-op")
-  | "mon" :: "clear" :: "=>" :: _ => ({ st with hist := [] }, "ok")
+  | "mon" :: "clear" :: "=>" :: _ => ({ st with hist := [], live := [] }, "ok")
   | "mon" :: "new" :: _ => (init, "ok")
   | "mon" :: "isempty" :: "=>" :: [b] =>
     -- after a clear and before any store the observer must say empty; a non-empty history must say non-empty
